@@ -259,6 +259,11 @@ fn solve_inner<A: Analysis>(
     let (all_variables, mut values): (Vec<Id>, Vec<f64>) = initial_guesses.into_iter().unzip();
     let mut warnings = warnings::lint(constraints);
     let initial_values = values.clone();
+    #[cfg(feature = "verif-hooks")]
+    verif_hooks::trace_push(verif_hooks::TraceEvent::SolveInnerStart {
+        entry_ids: constraints.iter().map(|c| c.id).collect(),
+        priorities: constraints.iter().map(|c| c.priority).collect(),
+    });
 
     let mut model = match Model::new(constraints, all_variables, initial_values, config) {
         Ok(o) => o,
@@ -274,6 +279,12 @@ fn solve_inner<A: Analysis>(
 
     let mut unsatisfied: Vec<usize> = Vec::new();
     let outcome = model.solve_gauss_newton(&mut values, config);
+    #[cfg(feature = "verif-hooks")]
+    if let Err(e) = &outcome {
+        verif_hooks::trace_push(verif_hooks::TraceEvent::NewtonErr {
+            what: format!("{e:?}"),
+        });
+    }
     warnings.extend(model.warnings.lock().unwrap().drain(..));
     let success = match outcome {
         Ok(o) => o,
@@ -326,6 +337,8 @@ fn solve_inner<A: Analysis>(
         .map(|c| c.priority)
         .max()
         .unwrap_or_default();
+    #[cfg(feature = "verif-hooks")]
+    verif_hooks::trace_push(verif_hooks::TraceEvent::SolveInnerEnd { ok: true });
     Ok(SolveOutcomeAnalysis {
         outcome: SolveOutcome {
             priority_solved: lowest_priority,
